@@ -362,6 +362,70 @@ c20 = [
 for name, body in c20:
     probe("C20", "probe-arrmac", "probe_arr_" + name, body, toplevel=SLOT)
 
+
+# ------------------------------------------------------------------ API-surface probes for the run-time properties
+# If a change makes an engine stop compiling, its property's probes say whether the API moved
+# altogether (all fail: inconclusive) or an operation vanished for some lengths / element types
+# the property quantifies over (some fail: violation).
+API_TOP = """struct Z; // zero-sized, no traits
+#[derive(Clone, Debug, Default, PartialEq, Eq, PartialOrd, Ord, Hash)] struct D(u8);
+struct NC(u8); // neither Clone nor Default nor Debug
+fn need_dei<I: DoubleEndedIterator + ExactSizeIterator + core::iter::FusedIterator>(_: &I) {}
+"""
+api = {
+ "C02": [
+  ("views_u0", "let mut a: GenericArray<NC, U0> = arr![]; let _: &[NC] = a.as_slice(); let _: &mut [NC] = a.as_mut_slice(); let _: &[NC] = &a[..]; let _: &[NC] = a.as_ref(); let _: &[NC; 0] = a.as_ref(); let _: &mut [NC; 0] = a.as_mut(); let _: &[NC] = core::borrow::Borrow::borrow(&a); let _: &mut [NC] = core::borrow::BorrowMut::borrow_mut(&mut a); for _ in &a {} for _ in &mut a {}"),
+  ("views_u3_zst", "let mut a: GenericArray<Z, U3> = arr![Z, Z, Z]; let _: &[Z] = a.as_slice(); let _: &mut [Z] = a.as_mut_slice(); let _: &[Z; 3] = a.as_ref(); let _: &mut [Z; 3] = a.as_mut(); let _: &[Z] = a.as_ref(); let _: &mut [Z] = a.as_mut(); for _ in &a {} for _ in &mut a {}"),
+  ("from_slice_forms", "let mut v = [NC(1), NC(2)]; { let _: &GenericArray<NC, U2> = GenericArray::from_slice(&v); } { let _: &mut GenericArray<NC, U2> = GenericArray::from_mut_slice(&mut v); } { let _: Result<&GenericArray<NC, U2>, _> = GenericArray::try_from_slice(&v); } { let _: Result<&mut GenericArray<NC, U2>, _> = GenericArray::try_from_mut_slice(&mut v); } { let _: Result<&GenericArray<NC, U2>, _> = <&GenericArray<NC, U2>>::try_from(&v[..]); } { let _: Result<&mut GenericArray<NC, U2>, _> = <&mut GenericArray<NC, U2>>::try_from(&mut v[..]); }"),
+  ("from_slice_u0", "let mut v: [NC; 0] = []; { let _: &GenericArray<NC, U0> = GenericArray::from_slice(&v); } { let _: &mut GenericArray<NC, U0> = GenericArray::from_mut_slice(&mut v); } { let _ = GenericArray::<NC, U0>::try_from_slice(&v).is_ok(); } { let _ = <&mut GenericArray<NC, U0>>::try_from(&mut v[..]).is_ok(); }"),
+  ("native_refs", "let mut n = [NC(1), NC(2), NC(3)]; { let _: &GenericArray<NC, U3> = (&n).into(); } { let _: &mut GenericArray<NC, U3> = (&mut n).into(); } let g: GenericArray<NC, U3> = n.into(); let _: [NC; 3] = g.into(); let g0: GenericArray<NC, U0> = GenericArray::from_array([]); let _: [NC; 0] = g0.into_array();"),
+  ("tuples", "let g: GenericArray<NC, U1> = (NC(1),).into(); let _: (NC,) = g.into(); let g: GenericArray<NC, U3> = (NC(1), NC(2), NC(3)).into(); let _: (NC, NC, NC) = g.into(); let g: GenericArray<u8, U12> = (1, 2, 3, 4, 5, 6, 7, 8, 9, 10, 11, 12).into(); let _: (u8, u8, u8, u8, u8, u8, u8, u8, u8, u8, u8, u8) = g.into();"),
+ ],
+ "C06": [
+  ("iter_traits", "let it = arr![NC(1), NC(2)].into_iter(); need_dei(&it); let it0 = GenericArray::<NC, U0>::from_array([]).into_iter(); need_dei(&it0); let z = arr![Z, Z].into_iter(); need_dei(&z);"),
+  ("iter_clone_debug", "let it = arr![D(1), D(2)].into_iter(); let c = it.clone(); let _ = format!(\"{:?}{:#?}\", it, c); let mut t = c.clone(); t.clone_from(&it);"),
+  ("iter_methods", "let mut it = arr![NC(1), NC(2), NC(3)].into_iter(); let _ = (it.len(), it.size_hint()); let _: &[NC] = it.as_slice(); let _: &mut [NC] = it.as_mut_slice(); let _ = it.next(); let _ = it.next_back(); let _ = it.nth(0); let _ = it.nth_back(0); let _ = it.count();"),
+  ("iter_folds", "let it = arr![NC(1), NC(2)].into_iter(); let _ = it.fold(0u32, |a, x| a + x.0 as u32); let it = arr![NC(1), NC(2)].into_iter(); let _ = it.rfold(0u32, |a, x| a + x.0 as u32); let _ = arr![NC(1)].into_iter().last(); let _ = arr![NC(1)].into_iter().rev().count();"),
+ ],
+ "C08": [
+  ("generate_forms", "let _: GenericArray<NC, U3> = GenericArray::generate(|i| NC(i as u8)); let _: GenericArray<NC, U0> = GenericArray::generate(|i| NC(i as u8)); let _: Box<GenericArray<NC, U3>> = Box::<GenericArray<NC, U3>>::generate(|i| NC(i as u8)); let _: GenericArray<Z, U2> = GenericArray::generate(|_| Z);"),
+  ("map_forms", "let mut a = arr![NC(1), NC(2)]; let _: GenericArray<u8, U2> = (&a).map(|x| x.0); let _: GenericArray<u8, U2> = (&mut a).map(|x| x.0); let _: GenericArray<Z, U2> = a.map(|_| Z); let b = box_arr![1u8, 2]; let _: Box<GenericArray<u16, U2>> = b.map(|x| x as u16); let e: GenericArray<NC, U0> = arr![]; let _: GenericArray<Z, U0> = e.map(|_| Z);"),
+  ("zip_forms", "let (mut a, mut b) = (arr![NC(1), NC(2)], arr![NC(3), NC(4)]); let _: GenericArray<u8, U2> = (&a).zip(&b, |x, y| x.0 + y.0); let _: GenericArray<u8, U2> = (&mut a).zip(&mut b, |x, y| x.0 + y.0); let _: GenericArray<u8, U2> = (&a).zip(&mut b, |x, y| x.0 + y.0); let _: GenericArray<u8, U2> = a.zip(b, |x, y| x.0 + y.0); let _ = box_arr![1, 2].zip(box_arr![3, 4], |x, y| x + y);"),
+  ("zip_mixed_forms", "let (a, b) = (arr![NC(1), NC(2)], arr![NC(3), NC(4)]); let _: GenericArray<u8, U2> = a.zip(&b, |x, y| x.0 + y.0); let a = arr![NC(1), NC(2)]; let _: GenericArray<u8, U2> = (&a).zip(b, |x, y| x.0 + y.0); let (a, mut b) = (arr![NC(1), NC(2)], arr![NC(3), NC(4)]); let _: GenericArray<u8, U2> = a.zip(&mut b, |x, y| x.0 + y.0);"),
+  ("fold_clone_default", "let mut a = arr![D(1), D(2)]; let _ = (&a).fold(0, |s, x| s + x.0); let _ = (&mut a).fold(0, |s, x| s + x.0); let c = a.clone(); let _ = a.fold(0, |s, x| s + x.0); let _ = Box::new(c).fold(0, |s, x| s + x.0); let _: GenericArray<D, U5> = Default::default(); let _: GenericArray<D, U0> = Default::default(); let e: GenericArray<D, U0> = arr![]; let _ = e.clone();"),
+ ],
+ "C09": [
+  ("lengthen_shorten", "let a: GenericArray<NC, U0> = arr![]; let a: GenericArray<NC, U1> = a.append(NC(1)); let a: GenericArray<NC, U2> = a.prepend(NC(0)); let (a, _x): (GenericArray<NC, U1>, NC) = a.pop_back(); let (_y, a): (NC, GenericArray<NC, U0>) = a.pop_front(); let _ = a;"),
+  ("split_all_k", "let a = arr![NC(1), NC(2), NC(3)]; let (_h, _t): (GenericArray<NC, U0>, GenericArray<NC, U3>) = a.split(); let a = arr![NC(1), NC(2), NC(3)]; let (_h, _t): (GenericArray<NC, U3>, GenericArray<NC, U0>) = a.split(); let mut a = arr![NC(1), NC(2), NC(3)]; { let (_h, _t): (&GenericArray<NC, U1>, &GenericArray<NC, U2>) = (&a).split(); } { let (_h, _t): (&mut GenericArray<NC, U3>, &mut GenericArray<NC, U0>) = (&mut a).split(); } { let (_h, _t): (&mut GenericArray<NC, U0>, &mut GenericArray<NC, U3>) = (&mut a).split(); }"),
+  ("split_u0", "let mut e: GenericArray<NC, U0> = arr![]; { let (_h, _t): (&GenericArray<NC, U0>, &GenericArray<NC, U0>) = (&e).split(); } { let (_h, _t): (&mut GenericArray<NC, U0>, &mut GenericArray<NC, U0>) = (&mut e).split(); } let (_h, _t): (GenericArray<NC, U0>, GenericArray<NC, U0>) = e.split();"),
+  ("concat_remove", "let a: GenericArray<NC, U5> = arr![NC(1), NC(2)].concat(arr![NC(3), NC(4), NC(5)]); let e: GenericArray<NC, U0> = arr![]; let a: GenericArray<NC, U5> = a.concat(e); let e: GenericArray<NC, U0> = arr![]; let a: GenericArray<NC, U5> = e.concat(a); let (_x, a): (NC, GenericArray<NC, U4>) = a.remove(0); let (_x, a): (NC, GenericArray<NC, U3>) = a.swap_remove(2); let (_x, _a): (NC, GenericArray<NC, U2>) = unsafe { a.remove_unchecked(1) };"),
+  ("zst_ops", "let a = arr![Z, Z, Z]; let a: GenericArray<Z, U4> = a.append(Z); let (_h, t): (GenericArray<Z, U1>, GenericArray<Z, U3>) = a.split(); let (_x, t): (Z, GenericArray<Z, U2>) = t.remove(1); let _: GenericArray<Z, U4> = t.concat(arr![Z, Z]);"),
+ ],
+ "C10": [
+  ("chunks_shared", "let v = [NC(1), NC(2), NC(3), NC(4), NC(5)]; let (c, r): (&[GenericArray<NC, U2>], &[NC]) = GenericArray::chunks_from_slice(&v); let _: &[NC] = GenericArray::slice_from_chunks(c); let _ = r; let n: &[[NC; 2]] = GenericArray::into_chunks(c); let _: &[GenericArray<NC, U2>] = GenericArray::from_chunks(n);"),
+  ("chunks_mut", "let mut v = [NC(1), NC(2), NC(3), NC(4), NC(5)]; let (c, _r): (&mut [GenericArray<NC, U2>], &mut [NC]) = GenericArray::chunks_from_slice_mut(&mut v); let n: &mut [[NC; 2]] = GenericArray::into_chunks_mut(c); let g: &mut [GenericArray<NC, U2>] = GenericArray::from_chunks_mut(n); let _: &mut [NC] = GenericArray::slice_from_chunks_mut(g);"),
+  ("chunks_u0_zst", "let v: [NC; 0] = []; let (_c, _r): (&[GenericArray<NC, U0>], &[NC]) = GenericArray::chunks_from_slice(&v); let z = [Z, Z, Z]; let (c, _r): (&[GenericArray<Z, U2>], &[Z]) = GenericArray::chunks_from_slice(&z); let _: &[Z] = GenericArray::slice_from_chunks(c); let n0: [[NC; 0]; 3] = [[], [], []]; let g: &[GenericArray<NC, U0>] = GenericArray::from_chunks(&n0); let _: &[[NC; 0]] = GenericArray::into_chunks(g);"),
+  ("chunks_const", "const V: [u8; 5] = [1, 2, 3, 4, 5]; const P: (&[GenericArray<u8, U2>], &[u8]) = GenericArray::chunks_from_slice(&V); const S: &[u8] = GenericArray::slice_from_chunks(P.0); const N: &[[u8; 2]] = GenericArray::into_chunks(P.0); const G: &[GenericArray<u8, U2>] = GenericArray::from_chunks(N); let _ = (S, G);"),
+ ],
+ "C13": [
+  ("cmp_all_lengths", "let (a, b) = (arr![D(1), D(2)], arr![D(1), D(3)]); let _ = (a == b, a != b, a < b, a <= b, a > b, a >= b, a.cmp(&b), a.partial_cmp(&b)); let (e, f): (GenericArray<D, U0>, GenericArray<D, U0>) = (arr![], arr![]); let _ = (e == f, e.cmp(&f), e.partial_cmp(&f));"),
+  ("partial_only", "let (a, b) = (arr![1.0f64, f64::NAN], arr![1.0f64, 2.0]); let _ = (a == b, a.partial_cmp(&b), a < b);"),
+  ("hash_debug_borrow", "use std::collections::{BTreeMap, HashMap}; let mut h: HashMap<GenericArray<D, U2>, u8> = HashMap::new(); h.insert(arr![D(1), D(2)], 1); let _ = h.get(&[D(1), D(2)][..]); let mut t: BTreeMap<GenericArray<D, U2>, u8> = BTreeMap::new(); t.insert(arr![D(1), D(2)], 1); let _ = t.get(&[D(1), D(2)][..]); let _ = format!(\"{:?} {:#?} {:x?} {:5?}\", arr![1u8, 2], arr![D(1)], arr![10u8], arr![1.5f32]); let e: GenericArray<D, U0> = arr![]; let _ = format!(\"{:?}\", e);"),
+  ("nested_and_large", "let a = arr![arr![1u8, 2], arr![3, 4]]; let _ = (a == a.clone(), format!(\"{:?}\", a)); let big = GenericArray::<u8, U4096>::default(); let _ = (big == big, big.cmp(&big), format!(\"{:?}\", big).len());"),
+ ],
+ "C15": [
+  ("vec_box_conversions", "let a = arr![NC(1), NC(2)]; let v: Vec<NC> = a.into(); let a: GenericArray<NC, U2> = GenericArray::try_from(v).ok().unwrap(); let b: Box<[NC]> = a.into(); let a: GenericArray<NC, U2> = GenericArray::try_from(b).ok().unwrap(); let bx = Box::new(a); let s: Box<[NC]> = bx.into_boxed_slice(); let bx: Box<GenericArray<NC, U2>> = GenericArray::try_from_boxed_slice(s).ok().unwrap(); let v: Vec<NC> = bx.into_vec(); let bx: Box<GenericArray<NC, U2>> = GenericArray::try_from_vec(v).ok().unwrap(); for _ in bx {}"),
+  ("boxed_constructors", "let _: Box<GenericArray<D, U3>> = GenericArray::default_boxed(); let _: Box<GenericArray<D, U0>> = GenericArray::default_boxed(); let _: Result<Box<GenericArray<NC, U2>>, _> = GenericArray::try_boxed_from_iter(vec![NC(1), NC(2)]); let _: Box<GenericArray<NC, U2>> = vec![NC(1), NC(2)].into_iter().collect(); let _: Box<GenericArray<Z, U2>> = vec![Z, Z].into_iter().collect();"),
+  ("u0_and_zst", "let e: GenericArray<NC, U0> = arr![]; let v: Vec<NC> = e.into(); let e: GenericArray<NC, U0> = GenericArray::try_from(v).ok().unwrap(); let b: Box<[NC]> = e.into(); let _: Box<GenericArray<NC, U0>> = GenericArray::try_from_boxed_slice(b).ok().unwrap(); let z = arr![Z, Z]; let v: Vec<Z> = z.into(); let _: Box<GenericArray<Z, U2>> = GenericArray::try_from_vec(v).ok().unwrap();"),
+ ],
+ "C07": [
+  ("collect_forms", "let _: Result<GenericArray<NC, U2>, _> = GenericArray::try_from_iter(vec![NC(1), NC(2)]); let _: GenericArray<NC, U2> = vec![NC(1), NC(2)].into_iter().collect(); let _: GenericArray<NC, U0> = std::iter::empty().collect(); let _: Result<GenericArray<Z, U3>, _> = GenericArray::try_from_iter((0..3).map(|_| Z)); let _: GenericArray<u8, U3> = GenericArray::from_iter(0..3u8); let _ = GenericArray::<u8, U3>::try_from_iter(std::iter::repeat(1u8)).is_err();"),
+ ],
+}
+for prop, items in api.items():
+    for name, body in items:
+        probe(prop, "probe-api", f"probe_api_{prop.lower()}_{name}", body, toplevel=API_TOP)
+
 # ------------------------------------------------------------------ write out
 if os.path.isdir(BIN):
     shutil.rmtree(BIN)
